@@ -602,6 +602,19 @@ pub fn ops_depth2(b: &Base) -> Vec<Op> {
             ops.push(Op::Pair(Box::new(sp), Box::new(Op::Extend { t: Tgt::Pk, extra: 4, fill: 0 })));
         }
     }
+    // two bits of the public key's identifier / root at the same bit position of two different bytes (every
+    // pair of byte positions): differences that cancel in a word-wise, XOR- or sum-folding comparison
+    for pf in b.model.pk_fields().into_iter().filter(|f| f.name == "pk.I" || f.name == "pk.T1") {
+        for i in 0..pf.len {
+            for j in i + 1..pf.len {
+                let bit = ((i + j) % 8) as u8;
+                ops.push(Op::Pair(
+                    Box::new(Op::Flip { t: Tgt::Pk, byte: pf.off + i, bit, class: format!("{}-two-bytes", pf.name) }),
+                    Box::new(Op::Flip { t: Tgt::Pk, byte: pf.off + j, bit, class: format!("{}-two-bytes", pf.name) }),
+                ));
+            }
+        }
+    }
     // (bit flip in q, bit flip in pk type)
     for f in b.fields.iter().filter(|f| f.name.ends_with(".q")) {
         for bit in 0..8 {
